@@ -11,6 +11,7 @@ from flax import errors
 
 from harness.common import qualnames
 from harness import c01 as C1
+from harness import c09 as C9
 from vf.ob import Ob
 from vf.xh import I, B, Reject, pick
 
@@ -18,13 +19,18 @@ from vf.xh import I, B, Reject, pick
 class _Lax:
   @staticmethod
   def cond(pred, t, f, *ops):
-    return t(*ops) if pred else f(*ops)
+    # like lax.cond under tracing: BOTH branch functions are executed (traced),
+    # the selected result is returned
+    rt = t(*ops)
+    rf = f(*ops)
+    return rt if pred else rf
 
   @staticmethod
   def switch(index, branches, *ops):
     n = len(branches)
     i = 0 if index < 0 else (n - 1 if index >= n else index)   # lax clamps
-    return branches[i](*ops)
+    results = [b(*ops) for b in branches]                      # all are traced
+    return results[i]
 
   @staticmethod
   def while_loop(cond_fn, body_fn, init):
@@ -96,9 +102,12 @@ def lifted_equals_plain(t, mi, li, sel, a, b, x, n, k0, c0, n0, h0, k1, c1, n1, 
   def chosen(prog_):
     return prog_
 
+  logs = {'body': [], 'alt': []}
+
   def lifted_fn(sc, xx, log):
-    body = lambda s_, x_: C1.run_program(s_, x_, prog, log)
-    alt = lambda s_, x_: C1.run_program(s_, x_, _alt(prog), log)
+    # (lax.cond / lax.switch trace every branch: each branch keeps its own log)
+    body = lambda s_, x_: C1.run_program(s_, x_, prog, logs['body'])
+    alt = lambda s_, x_: C1.run_program(s_, x_, _alt(prog), logs['alt'])
     noop = lambda s_, x_: x_
     if t == 0:
       return L.checkpoint(body, variables=lift_filter, rngs=True)(sc, xx)
@@ -130,8 +139,10 @@ def lifted_equals_plain(t, mi, li, sel, a, b, x, n, k0, c0, n0, h0, k1, c1, n1, 
   # reference: the plain program on the lifted collections only
   if t in (3, 4):
     which = prog if sel == 0 else (_alt(prog) if (sel == 1 or t == 3) else None)
+    log = [] if which is None else (logs['body'] if sel == 0 else logs['alt'])
   else:
     which = prog
+    log = logs['body']
   sub = {c: v for c, v in variables.items() if lref(c)}
   sub_mut = [c for c in C1.COLS if mref(c) and lref(c)]
   if which is None:
@@ -216,6 +227,25 @@ def dedup_scopes(shared):
     (same, seen), mv = S.apply(fn, mutable=True)(variables)
   return same == bool(shared) and seen == (5 if shared else -1) and mv['stats'][
       'k'] == 5
+
+
+def map_variables_init(x, frozen_mapped):
+  """identity map_variables(init=True) during initialisation: same tree and output
+  as the plain code (a counter outside the mapped collection is bumped ONCE)"""
+  def body(sc, xx):
+    w = sc.variable('params', 'w', lambda: 3)
+    c = sc.variable('stats', 'count', lambda: 0)
+    c.value = c.value + 1
+    return xx * w.value + c.value
+
+  def lifted(sc, xx):
+    return L.map_variables(body, 'params', map_in_fn=lambda v: v,
+                           map_out_fn=lambda v: v, init=True,
+                           mutable=not frozen_mapped)(sc, xx)
+  with LiftEnv():
+    y1, v1 = S.init(lifted)({'params': C9._KEYS[0]}, x)
+  y0, v0 = S.init(body)({'params': C9._KEYS[0]}, x)
+  return y1 == y0 and C1.plain(v1) == C1.plain(v0)
 
 
 def dedup_grandchild(depth):
@@ -337,6 +367,8 @@ def obligations(tier):
          bounds='trip counts 0..3, carried stats / broadcast params'),
       Ob('lifted_scope_dedup', dedup_scopes, dict(shared=B()), timeout=120,
          funcs=F),
+      Ob('map_variables_init', map_variables_init,
+         dict(x=I(-3, 3), frozen_mapped=B()), timeout=300, funcs=F),
       Ob('lifted_scope_descendant_path', dedup_grandchild, dict(depth=I(1, 3)),
          timeout=120, funcs=F),
       Ob('lifted_rng_counters', lifted_rng_counters,
